@@ -15,6 +15,7 @@ Subclasses describe one property's system:
     nontrivial(work, model) -> bool
 `problems` is a list of strings (empty = fine).
 """
+import pickle
 import time
 import zlib
 from collections import Counter
@@ -48,6 +49,11 @@ def capture(sk, skip=()):
             out.append((name, "s", v))
         elif isinstance(v, Counter):
             out.append((name, "c", tuple(sorted((k, int(c)) for k, c in v.items()))))
+        elif isinstance(v, (tuple, list, dict, set, frozenset)):
+            try:
+                out.append((name, "p", pickle.dumps(v, 4)))
+            except Exception:
+                out.append((name, "r", repr(v)))
         else:
             out.append((name, "r", repr(v)))
     return tuple(out)
@@ -79,21 +85,186 @@ def restore(sk, cap, skip=()):
             d[name] = item[2]
         elif tag == "c":
             d[name] = Counter(dict(item[2]))
+        elif tag == "p":
+            d[name] = pickle.loads(item[2])
         # "r": opaque objects are left as they are
     for name in list(d):
         if name not in names and name not in SKIP_ALWAYS and name not in skip:
             del d[name]
 
 
+
+# ---------------------------------------------------------------------------
+# global state owned by the explorer
+# ---------------------------------------------------------------------------
+class GlobalState:
+    """Mutable state that lives OUTSIDE the sketch objects: module-level containers /
+    arrays of the sketchnu modules and data attributes of the sketch classes (a memo, a
+    hoisted scratch buffer, a class-level cache).  The pristine library has none that
+    changes, so this is dormant there; for a tree that introduces such state it is part
+    of every explored state (captured, compared, restored), which keeps the exploration
+    faithful and replays deterministic."""
+
+    MODS = ("sketchnu.countmin", "sketchnu.heavyhitters", "sketchnu.hyperloglog",
+            "sketchnu.helpers", "sketchnu.hashes")
+    CONT = (np.ndarray, dict, list, set, bytearray)
+
+    def __init__(self):
+        import importlib
+        import inspect
+
+        self.inspect = inspect
+        self.mods = [importlib.import_module(m) for m in self.MODS]
+        self.pristine = {}
+        self.quick = {}  # cheap fingerprints of pristine big arrays
+        for slot, owner, name, val in self.slots():
+            self.pristine[slot] = pickle.dumps(val, 4)
+            if isinstance(val, np.ndarray) and val.flags.c_contiguous:
+                self.quick[slot] = (val.shape, val.dtype.str, zlib.adler32(val))
+
+    def _scan(self):
+        seen = set()
+        insp = self.inspect
+        tracked = []
+        sizes = []
+        for m in self.mods:
+            sizes.append((m, len(vars(m))))
+            for name, val in list(vars(m).items()):
+                if name.startswith("__"):
+                    continue
+                if isinstance(val, self.CONT) and id(val) not in seen:
+                    seen.add(id(val))
+                    tracked.append(((m.__name__, name), m, name))
+                elif insp.isclass(val) and val.__module__ == m.__name__:
+                    sizes.append((val, len(vars(val))))
+                    for an, av in list(vars(val).items()):
+                        if an.startswith("__") or callable(av) or isinstance(
+                                av, (staticmethod, classmethod, property)):
+                            continue
+                        tracked.append(((m.__name__, val.__name__, an), val, an))
+        self._tracked, self._sizes = tracked, sizes
+
+    _tracked = None
+
+    def slots(self):
+        if self._tracked is None or any(len(vars(o)) != n for o, n in self._sizes):
+            self._scan()
+        missing = object()
+        for slot, owner, name in self._tracked:
+            val = vars(owner).get(name, missing)
+            if val is not missing:
+                yield slot, owner, name, val
+
+    def capture(self):
+        out = []
+        present = set()
+        for slot, owner, name, val in self.slots():
+            present.add(slot)
+            q = self.quick.get(slot)
+            if q is not None and isinstance(val, np.ndarray) and val.flags.c_contiguous \
+                    and (val.shape, val.dtype.str, zlib.adler32(val)) == q:
+                continue
+            try:
+                blob = pickle.dumps(val, 4)
+            except Exception:
+                blob = repr(val).encode()
+            if self.pristine.get(slot) != blob:
+                out.append((slot, blob))
+        for slot in self.pristine:
+            if slot not in present:
+                out.append((slot, None))
+        return tuple(out)
+
+    def restore(self, gcap):
+        cur = dict(self.capture())
+        want = dict(gcap)
+        if cur == want:
+            return
+        todo = {slot for slot in set(cur) | set(want) if cur.get(slot, "P") != want.get(slot, "P")}
+        for slot, owner, name, val in list(self.slots()):
+            if slot not in todo:
+                continue
+            todo.discard(slot)
+            target = want.get(slot, self.pristine.get(slot, "DELETE"))
+            if target == "DELETE":
+                try:
+                    delattr(owner, name)
+                except Exception:
+                    pass
+                continue
+            if target is None:
+                # the state says "this pristine slot does not exist": remove it
+                try:
+                    delattr(owner, name)
+                except Exception:
+                    pass
+                continue
+            self._put(owner, name, val, pickle.loads(target))
+        for slot in todo:
+            # slot currently absent but wanted (pristine or state value): re-create it
+            target = want.get(slot, self.pristine.get(slot))
+            if target is None:
+                continue
+            owner = self._owner(slot)
+            if owner is not None:
+                setattr(owner, slot[-1], pickle.loads(target))
+
+    def _owner(self, slot):
+        for m in self.mods:
+            if m.__name__ == slot[0]:
+                return m if len(slot) == 2 else getattr(m, slot[1], None)
+        return None
+
+    @staticmethod
+    def _put(owner, name, val, new):
+        if isinstance(val, np.ndarray) and isinstance(new, np.ndarray) and val.shape == new.shape \
+                and val.flags.writeable:
+            val[...] = new
+        elif isinstance(val, dict) and isinstance(new, dict):
+            val.clear()
+            val.update(new)
+        elif isinstance(val, list) and isinstance(new, list):
+            val[:] = new
+        elif isinstance(val, set) and isinstance(new, set):
+            val.clear()
+            val |= new
+        else:
+            setattr(owner, name, new)
+
+
+_GLOBALS = [None]
+
+
+def globals_state():
+    if _GLOBALS[0] is None:
+        _GLOBALS[0] = GlobalState()
+    return _GLOBALS[0]
+
+
+def _root(a):
+    b = a
+    while isinstance(getattr(b, "base", None), np.ndarray):
+        b = b.base
+    return id(b)
+
+
 def alias_groups(work, skip=()):
-    """Arrays of DIFFERENT fields/objects of the system that start at the same
-    address (one ndarray object, or two views of one buffer): shared mutable
-    state between sketches.  Returned as a sorted tuple of groups of (index, field)."""
+    """Arrays of DIFFERENT fields/objects of the system that are one ndarray object or
+    views of one ndarray (same ultimate base): shared mutable state between sketches.
+    Returned as a sorted tuple of groups of (index, field)."""
     seen = {}
+    shared = False
     for i, w in enumerate(work):
         for name, v in w.__dict__.items():
-            if isinstance(v, np.ndarray) and v.size and name not in SKIP_ALWAYS and name not in skip:
-                seen.setdefault(v.__array_interface__["data"][0], []).append((i, name))
+            if type(v) is np.ndarray and name not in SKIP_ALWAYS and name not in skip:
+                k = id(v) if v.base is None else _root(v)
+                if k in seen:
+                    shared = True
+                    seen[k].append((i, name))
+                else:
+                    seen[k] = [(i, name)]
+    if not shared:
+        return ()
     return tuple(sorted(tuple(g) for g in seen.values() if len(g) > 1))
 
 
@@ -151,21 +322,27 @@ class E1:
     def explore(self, cfg, depth, rep, time_cap=None, state_cap=None, extra_init=None):
         """BFS to `depth` (or fixpoint).  Returns a stats dict."""
         t0 = time.time()
+        self.G = globals_state()
+        self.G.restore(())
         work, model0 = self.init(cfg)
         self.cfg = cfg
         probs = self.oracle(work, model0)
-        s0 = (self.cap_all(work), model0, alias_groups(work, self.skip))
+        s0 = (self.cap_all(work), model0, alias_groups(work, self.skip), self.G.capture(),
+              self.ext_capture())
         parent = {s0: None}
         frontier = [s0]
         if extra_init:
             # further start states: each is an event list applied from the initial state
             for evs in extra_init:
                 self.res_all(work, s0[0], s0[2])
+                self.G.restore(s0[3])
+                self.ext_restore(s0[4])
                 m = model0
                 for ev in evs:
                     m, _ = self.apply(work, m, ev)
                 self.oracle(work, m)
-                st = (self.cap_all(work), m, alias_groups(work, self.skip))
+                st = (self.cap_all(work), m, alias_groups(work, self.skip), self.G.capture(),
+                      self.ext_capture())
                 if st not in parent:
                     parent[st] = ("init", list(evs))
                     frontier.append(st)
@@ -195,6 +372,14 @@ class E1:
         modify any other object).  None = all."""
         return None
 
+    def ext_capture(self):
+        """State of the environment the system talks to (e.g. the bytes of the scratch file
+        sketches are saved to).  Hashable; part of every explored state."""
+        return None
+
+    def ext_restore(self, x):
+        pass
+
     def active(self, work):
         """(index, sketch) pairs the oracles need to look at for this transition:
         untouched sketches were checked, with the same model, in the parent state."""
@@ -208,15 +393,22 @@ class E1:
     def _search(self, rep, cfg, work, frontier, parent, stats, outcomes, depth, t0,
                 time_cap, state_cap):
         S = len(work)
+        G = self.G
         everything = tuple(range(S))
         has_post = type(self).post_oracle is not E1.post_oracle
         for d in range(1, depth + 1):
             nxt = []
             for st in frontier:
-                caps, model, aliases = st
+                caps, model, aliases, gcap, ext = st
+                has_ext = type(self).ext_capture is not E1.ext_capture
                 dirty = everything
                 live_alias = True  # unknown sharing among the live objects: clean up first
+                gdirty = True
                 for ev in self.events(model, d):
+                    if gdirty or gcap:
+                        G.restore(gcap)
+                    if has_ext:
+                        self.ext_restore(ext)
                     if aliases or live_alias:
                         # shared arrays between sketches: restore everything, faithfully
                         self.res_all(work, caps, aliases)
@@ -239,6 +431,12 @@ class E1:
                         if linked & set(t):
                             t = tuple(sorted(set(t) | linked))
                             self._active = t
+                    g2 = G.capture()
+                    if g2 and t != everything:
+                        # state outside the objects exists: what any sketch answers may now
+                        # depend on it, so every sketch is re-checked, not only the touched ones
+                        t = everything
+                        self._active = t
                     p2 = self.oracle(work, model2)
                     c2 = list(caps)
                     for i in t:
@@ -246,13 +444,15 @@ class E1:
                     caps2 = tuple(c2)
                     p3 = self.post_oracle(work, model2) if has_post else []
                     self._active = None
-                    dirty = t
+                    # oracles that mutate (post_oracle) may have touched any sketch's cache
+                    dirty = everything if (has_post or g2) else t
                     live_alias = bool(al2)
+                    gdirty = bool(g2) or has_post
                     stats["transitions"] += 1
                     if p1 or p2 or p3:
                         stats["problems"] += 1
                         self._report(rep, cfg, self.path(parent, st) + [ev], p1 + p2 + p3)
-                    st2 = (caps2, model2, al2)
+                    st2 = (caps2, model2, al2, g2, self.ext_capture() if has_ext else None)
                     if st2 not in parent:
                         parent[st2] = (st, ev)
                         nxt.append(st2)
@@ -303,18 +503,46 @@ class E1:
         """Fresh objects, apply the recorded events, evaluate the oracles after
         every step.  Returns (violated, observation)."""
         self.cfg = cfg
+        self.G = globals_state()
+        self.G.restore(())
         work, model = self.init(cfg)
         probs = self.oracle(work, model)
         if probs:
             return True, {"step": 0, "problems": probs}
+        everything = tuple(range(len(work)))
+        aliases = alias_groups(work, self.skip)
+        has_post = type(self).post_oracle is not E1.post_oracle
         for i, ev in enumerate(events):
             ev = _tup(ev)
+            # exactly the per-transition procedure of the explorer (same sketches looked at,
+            # same order of reads), so that what was observed there is observed here
+            t = self.touched(ev)
+            t = everything if t is None else tuple(sorted(set(t)))
+            if aliases:
+                linked = {j for g in aliases for j, _ in g}
+                if linked & set(t):
+                    t = tuple(sorted(set(t) | linked))
+            self._active = t
             model, p1 = self.apply(work, model, ev)
+            al2 = alias_groups(work, self.skip)
+            if al2:
+                linked = {j for g in al2 for j, _ in g}
+                if linked & set(t):
+                    t = tuple(sorted(set(t) | linked))
+                    self._active = t
+            g2 = self.G.capture()
+            if g2 and t != everything:
+                t = everything
+                self._active = t
             p2 = self.oracle(work, model)
             caps = self.cap_all(work)
-            al = alias_groups(work, self.skip)
-            p3 = self.post_oracle(work, model)
-            self.res_all(work, caps, al)
+            ext = self.ext_capture()
+            p3 = self.post_oracle(work, model) if has_post else []
+            self._active = None
+            self.res_all(work, caps, al2)
+            self.G.restore(g2)
+            self.ext_restore(ext)
+            aliases = al2
             if p1 or p2 or p3:
                 return True, {"step": i + 1, "event": list(ev), "problems": (p1 + p2 + p3)[:5]}
         return False, {"steps": len(events)}
